@@ -233,7 +233,7 @@ func TestC06(t *testing.T) {
 	run(t, spec{
 		id:     "C06",
 		rule:   "sparse-arrival scripts (one active priority, alternating, late writers, unbuffered inputs, inputs closing at different times, H = minimum accepted and slightly above, skewed priority values, withheld and batched releases) on v1 and v2, plain and simplified, Fair and Rate; v1 configurations with a zero strategic share are excluded by construction (known finding F4) ; oracle on the owned clock: at a quiescent point with nothing in flight and data waiting something must have been delivered; a priority alone in having data and alone in flight holds all H handlers; releasing one item at a time in the epilogue delivers everything (no wedge); non-trivial = a quiescent point was seen with free handlers, data waiting and items in flight (the discipline waited for a further feedback), or a single priority was active, or an input was unbuffered, or H is the minimum; distinct = distinct script JSON",
-		opts:   GenOpts{Vers: []int{1, 2}, Simple: []bool{false, false, true}, Dividers: libDiv, Sparse: true, NoZero: true},
+		opts:   GenOpts{Vers: []int{1, 2}, Simple: []bool{false, false, true}, Dividers: libDiv, Sparse: true, NoZero: true, AddRemove: true},
 		checkK: CheckC06,
 		skip: func(s Script, tr Trace) string {
 			if tr.NewErr != "" {
